@@ -41,9 +41,9 @@ Definition d_bounded : dec bounded := fun s =>
 
 Definition d_wpred : dec wpred := fun s =>
   match s with
-  | SList [SAtom "wp"; t; bd; bs; ts] =>
-      do t' <- d_bool t; do bd' <- d_bounded bd; do bs' <- d_bounds bs; do ts' <- d_toks ts;
-      Some (mkWP t' bd' bs' ts')
+  | SList [SAtom "wp"; t; bd; bs; ts; bi] =>
+      do t' <- d_bool t; do bd' <- d_bounded bd; do bs' <- d_bounds bs; do ts' <- d_toks ts; do bi' <- d_toks bi;
+      Some (mkWP t' bd' bs' ts' bi')
   | _ => None
   end.
 
